@@ -76,6 +76,13 @@ def build_tree(rnd, root, fault, placement, st):
     # its output must not depend on whether *other* files had something adjusted
     quiet = os.path.normpath(os.path.join(rnd.choice([".", "sub"]), rnd.choice(["k9quiet.css", "a1quiet.css", "zquiet.min.css"])))
     sheets[quiet] = ":root{--q-ink:#111111;--q-paper:#ffffff}\nhtml{--q2:#000}\n.q1{color:#111111;background-color:#ffffff}\n.q2{color:var(--q-ink);background-color:var(--q-paper)}\n"
+    # the same stylesheet reachable under a second path (a symbolic link in another directory): each path is an input of its
+    # own, with its own sibling output, alone and in a directory run alike
+    links = {}
+    if rnd.random() < 0.5:
+        lrel = os.path.normpath(os.path.join(rnd.choice(["themes", ".", "sub"]), rnd.choice(["a0light.css", "m5twin.css", "zz-alias.css"])))
+        if lrel not in sheets:
+            links[lrel] = names[rnd.randrange(len(names))]
     faulty, orphans = [], []
     if fault != "none":
         where, lvl = placement
@@ -106,6 +113,11 @@ def build_tree(rnd, root, fault, placement, st):
         os.makedirs(os.path.dirname(p), exist_ok=True)
         with open(p, "w", encoding="utf-8", newline="") as f:
             f.write(text)
+    for lrel, target in links.items():
+        p = os.path.join(root, lrel)
+        os.makedirs(os.path.dirname(p), exist_ok=True)
+        os.symlink(os.path.relpath(os.path.join(root, target), os.path.dirname(p)), p)
+        sheets[lrel] = sheets[target]
     if fault == "non-utf8":
         p = os.path.join(root, rel)
         os.makedirs(os.path.dirname(p), exist_ok=True)
@@ -143,7 +155,7 @@ def build_tree(rnd, root, fault, placement, st):
         open(p, "w").close()
         faulty.remove(rel)
         sheets[rel] = ""
-    return sheets, faulty, orphans
+    return sheets, faulty, orphans, links
 
 
 def outputs(root):
@@ -166,8 +178,10 @@ def work(shard, rec):
         st = {"mode": rnd.randrange(3), "premium": rnd.random() < 0.3, "default_bg": rnd.choice([None, None, "var(--page-bg, white)", "var(--page-bg)"])}
         pristine = os.path.join(scratch, f"p{ti}")
         shutil.rmtree(pristine, ignore_errors=True)
-        sheets, faulty, orphans = build_tree(rnd, pristine, fault, tuple(placement), st)
-        case = {"fault": fault, "placement": placement, "settings": st, "sheets": sheets, "faulty": faulty, "orphans": orphans}
+        sheets, faulty, orphans, links = build_tree(rnd, pristine, fault, tuple(placement), st)
+        case = {"fault": fault, "placement": placement, "settings": st, "sheets": sheets, "faulty": faulty, "orphans": orphans, "links": links}
+        if links:
+            rec.count("trees_with_a_linked_twin")
         try:
             judge_tree(rec, scratch, ti, pristine, sheets, faulty, orphans, fault, placement, st, case, rnd)
         finally:
@@ -267,8 +281,13 @@ def replay(case):
     for rel, text in case["sheets"].items():
         p = os.path.join(pristine, rel)
         os.makedirs(os.path.dirname(p), exist_ok=True)
+        if rel in case.get("links", {}):
+            continue
         with open(p, "w", encoding="utf-8", newline="") as f:
             f.write(text)
+    for lrel, target in case.get("links", {}).items():
+        p = os.path.join(pristine, lrel)
+        os.symlink(os.path.relpath(os.path.join(pristine, target), os.path.dirname(p)), p)
     print("replay rebuilds the stylesheets only (fault files are described by:", case["fault"], case["placement"], ")")
     rec = Rec()
     judge_tree(rec, scratch, 0, pristine, case["sheets"], [], [], "none", case["placement"], case["settings"], {}, random.Random(0))
